@@ -443,6 +443,7 @@ def pattern(it: Item, v: Variant, binders: Optional[List[str]] = None, path: str
 # without an absolute path picks up the look-alike).  Private on purpose: `pub use self::shadow::*` re-exports only the enum and the
 # types the derives generate.
 HOSTILE = {
+    "no_implicit_prelude": "",
     "Default": """trait Default { fn default() -> Self; }
 impl Default for u8 { fn default() -> u8 { 101 } }
 impl Default for i32 { fn default() -> i32 { 102 } }
@@ -473,11 +474,30 @@ impl<'q> Into<String> for &'q str { fn into(self) -> String { String::from("host
     "m_panic": "macro_rules! panic { ($($t:tt)*) => { loop {} } }",
     "m_fmt": "macro_rules! concat { ($($t:tt)*) => { \"\" } }\nmacro_rules! stringify { ($($t:tt)*) => { \"\" } }\nmacro_rules! write { ($($t:tt)*) => { ::core::result::Result::Ok(()) } }",
     "m_assert": "macro_rules! assert { ($($t:tt)*) => { () } }\nmacro_rules! debug_assert { ($($t:tt)*) => { () } }\nmacro_rules! unreachable { ($($t:tt)*) => { loop {} } }\nmacro_rules! todo { ($($t:tt)*) => { loop {} } }\nmacro_rules! unimplemented { ($($t:tt)*) => { loop {} } }",
+    # lower-case CONSTANTS with names a generated binding would plausibly use: a pattern `input if ..` becomes a constant pattern next to
+    # `const input: &str` (no warning, the arm just stops matching)
+    "c_binders": "\n".join("#[allow(non_upper_case_globals)] const %s: &str = \"hostile\";" % n_ for n_ in
+                            ("input", "other", "name", "text", "key", "word", "candidate", "variant", "spelling", "lit", "lower", "upper", "this", "that", "raw",
+                             "string", "needle", "src", "val", "item", "elem", "arg", "found", "matched", "result", "res", "out", "ret", "tmp")),
     "PhantomData": "struct PhantomData;\nmod marker {}\nmod fmt {}\nmod iter {}\nmod option {}\nmod result {}\nmod convert {}\nmod default {}",
 }
 
 
 def hostile_wrap(item_src: str, names) -> str:
+    if "no_implicit_prelude" in names:
+        # no prelude at all next to the enum: only what the USER's own tokens need is imported by name (payload types), so every
+        # method call of the generated code that relies on a prelude TRAIT being in scope (`x.clone()`, `s.into()`) stops resolving
+        imports = "use ::std::string::String; use ::std::option::Option; use ::std::boxed::Box; use ::std::vec::Vec;"
+        # the user's own derive list has to name everything absolutely as well (the extern prelude is gone too)
+        import re as _re
+
+        def _abs(m):
+            names = [x.strip() for x in m.group(1).split(",") if x.strip()]
+            table = {"Debug": "::core::fmt::Debug", "Clone": "::core::clone::Clone", "PartialEq": "::core::cmp::PartialEq", "Copy": "::core::marker::Copy",
+                     "Eq": "::core::cmp::Eq", "Hash": "::core::hash::Hash", "Default": "::core::default::Default"}
+            return "#[derive(%s)]" % ", ".join(table.get(n, ("::" + n) if n.startswith("strum::") else n) for n in names)
+        item_src = _re.sub(r"#\[derive\(([^)]*)\)\]", _abs, item_src, count=1)
+        return ("pub use self::shadow::*;\npub mod shadow {\n#![no_implicit_prelude]\n#![allow(unused_imports, dead_code, non_snake_case)]\nuse super::*;\n%s\n%s\n}" % (imports, item_src))
     body = "\n".join(HOSTILE[n] for n in names)
     return ("pub use self::shadow::*;\npub mod shadow {\n#![allow(unused_imports, dead_code, non_snake_case)]\nuse super::*;\n%s\n%s\n}" % (body, item_src))
 
